@@ -218,29 +218,30 @@ def powQ (b : Nat) (e : Int) : Q := if e ≥ 0 then ⟨(b : Int) ^ e.toNat, 1⟩
 def scaleQ (m : Int) (b : Nat) (e : Int) : Q :=
   if e ≥ 0 then ⟨m * (b : Int) ^ e.toNat, 1⟩ else ⟨m, b ^ (-e).toNat⟩
 
-/-- the ways in which the code in /repo (HEAD fa3b7b8) deviates from the required behaviour of
+/-- the ways in which the code in /repo deviates from the required behaviour of
     `simplest_from_float` (all `false` = required; all `true` = the code).  Each switch is one
-    line of `float/src/round.rs impl ErrorBounds for …` (re-checked against the source in round 5):
+    line of `float/src/round.rs impl ErrorBounds for …` (re-checked against the source in round 6):
     * `uniformUlp`: the spacing below a power of the base is taken to be a full ulp
       (`ErrorBounds` uses `f.ulp()` for both sides);
     * `ceilHalf`: half an ulp is `⌈b/2⌉·b^(e-1)`, more than half for an odd base
       (`ErrorBounds for HalfAway/HalfEven`: "ceil division");
     * `oddIncl`: `HalfEven` includes both ties iff the stored significand is ODD
-      (`f.repr.significand.bit(0)`) instead of the per-tie parity rule;
-    * `panicUnlimited`: `ErrorBounds for Away/Up/Down` call `f.ulp()` also for precision 0, which
-      panics, instead of returning `(0, 0, true, true)` as the trait documents.
-    Two former switches are gone because /repo was repaired: `conjSimpler` (766946e:
-    `is_simpler_than` is the documented order — `Props/C18.is_simpler_than_lexicographic` about the
-    regenerated text) and `zeroEndpoint` (5fc5674: `simplest_in(negative, 0)`). -/
+      (`f.repr.significand.bit(0)`) instead of the per-tie parity rule.
+    Former switches, gone because /repo was repaired: `conjSimpler` (766946e: `is_simpler_than` is
+    the documented order — `Props/C18.is_simpler_than_lexicographic` about the regenerated text),
+    `zeroEndpoint` (5fc5674: `simplest_in(negative, 0)`), `panicUnlimited` (round 6,
+    proposed_fixes/c18-simplest-from-float-unlimited.diff: `simplest_from_float` returns the exact
+    value of an unlimited-precision float BEFORE asking `R::error_bounds`, so the `f.ulp()` panic of
+    `ErrorBounds for Away/Up/Down` at precision 0 is no longer reachable through this function; it
+    remains a property of those `impl`s, see `Props/C18Gen.error_bounds_unlimited`). -/
 structure Quirks where
   uniformUlp : Bool
   ceilHalf : Bool
   oddIncl : Bool
-  panicUnlimited : Bool
   deriving Repr, DecidableEq
 
-def Quirks.none : Quirks := ⟨false, false, false, false⟩
-def Quirks.code : Quirks := ⟨true, true, true, true⟩
+def Quirks.none : Quirks := ⟨false, false, false⟩
+def Quirks.code : Quirks := ⟨true, true, true⟩
 
 /-- the set of real numbers that round to the float `± S·b^e` (`S` the `p`-digit significand of
     the magnitude) under a mode, as an interval of MAGNITUDES in units of `b^(e-1)/2`
@@ -274,17 +275,16 @@ def roundingSet (k : Quirks) (mode : RMode) (b p : Nat) (negative : Bool) (S : N
 
 /-- the body of `RBig::simplest_from_float` for a FINITE float, with deviation switches `k`
     (`Quirks.none`: REQUIRED behaviour — the simplest fraction among those that round to the float
-    `signif · b^exp` at precision `p` under `mode`; `p = 0`, unlimited precision: the error bounds
-    are `(0, 0, true, true)` and the result is the number itself).  `simpler`: the order used for the
+    `signif · b^exp` at precision `p` under `mode`; `p = 0`, unlimited precision: only the number itself rounds to
+    it, and the code returns it before looking at the error bounds, for every mode).  `simpler`: the order used for the
     inclusive end points (the documented order `simplerSpec`; the driver also runs the regenerated
     `is_simpler_than`).  `none`: malformed input (more digits than the precision). -/
 def simplestFromFBig (k : Quirks) (simpler : Q → Q → Bool) (mode : RMode)
     (b : Nat) (signif exp : Int) (p : Nat) : Except PanicKind (Option Q) :=
   if signif = 0 then .ok (some Q.zero)
   else if p = 0 then
-    if k.panicUnlimited ∧ (mode = .away ∨ mode = .up ∨ mode = .down) then
-      .error .unlimitedPrecision
-    else (reduce (scaleQ signif b exp)).map some
+    -- `if f.precision() == 0 { return Some(Self::try_from(f.clone()).unwrap()) }`
+    (reduce (scaleQ signif b exp)).map some
   else
     let n := digitsB b (signif.natAbs + 1) signif.natAbs
     if n > p then .ok none
@@ -303,6 +303,37 @@ def simplestFromFBig (k : Quirks) (simpler : Q → Q → Bool) (mode : RMode)
       match ← pickSimplest simpler lo hi inclLo inclHi with
       | none => pure none
       | some s => pure (some (mulSign s negative))
+
+/-- **`<R as ErrorBounds>::error_bounds(f)`** (float/src/round.rs) for a finite non-zero float
+    `f = signif · b^exp` with context precision `p`, as exact values `(L, R, incl_L, incl_R)`: the
+    numbers that round to `f` are those between `f − L` and `f + R`, an end included iff its flag is
+    set.  `k = Quirks.none`, `codeSide = false`: REQUIRED (the exact rounding set of `roundingSet`;
+    unlimited precision: `(0, 0, true, true)`, as the trait documents).  `k = Quirks.code`,
+    `codeSide = true`: what the six `impl`s return today (`Away`/`Up`/`Down` call `f.ulp()` first, which
+    panics at precision 0).  Widths come out of the same table `roundingSet` that
+    `simplestFromFBig` uses (units `b^(e−1)/2`); for a negative float the two sides swap.
+    `none`: malformed input (more digits than the precision). -/
+def errorBoundsFBig (k : Quirks) (codeSide : Bool) (mode : RMode) (b : Nat) (signif exp : Int)
+    (p : Nat) : Except PanicKind (Option (Q × Q × Bool × Bool)) :=
+  if p = 0 then
+    if codeSide ∧ (mode = .away ∨ mode = .up ∨ mode = .down) then .error .unlimitedPrecision
+    else .ok (some (Q.zero, Q.zero, true, true))
+  else
+    let n := digitsB b (signif.natAbs + 1) signif.natAbs
+    if n > p then .ok none
+    else
+      let S := signif.natAbs * b ^ (p - n)
+      let e : Int := exp - (p - n : Nat)
+      let negative := decide (signif < 0)
+      let (loN, hiN, inclLo, inclHi) :=
+        roundingSet k mode b p negative S (decide (signif.natAbs % 2 = 1))
+      let c : Int := 2 * b * S
+      let mk (w : Int) : Q :=
+        let q := scaleQ w b (e - 1)
+        ⟨q.num, q.den * 2⟩
+      let lo := mk (c - loN)
+      let hi := mk (hiN - c)
+      .ok (some (if negative then (hi, lo, inclHi, inclLo) else (lo, hi, inclLo, inclHi)))
 
 /-- `Repr::is_infinite` (float/src/repr.rs): significand zero and exponent non-zero
     (`+inf = (0, 1)`, `-inf = (0, -1)`) -/
